@@ -122,7 +122,7 @@ impl ParsedMessage {
             {
                 // ignore attributes after integrity
                 // excluding MESSAGE-INTEGRITY-SHA256 & FINGERPRINT
-                return None;
+                continue;
             }
 
             if attr.typ == A::TYPE {
